@@ -66,7 +66,7 @@ VALUES = [None, 0, 1, -7, 2.5, 'x', 'y z', "q'uote", '', b'\x00\x01', 10 ** 12,
 def budget(tier):
     if tier == 'quick':
         return {'cases': 1600, 'wall_cap_s': 240}
-    return {'cases': 16000, 'wall_cap_s': 1500}
+    return {'cases': 12000, 'wall_cap_s': 1500}
 
 
 def _gen_rows(rng, cols, n):
